@@ -309,6 +309,11 @@ def gillespie_stage2(rec, facts, netname, spacedesc, chem=None, legality=True, p
             i, s, slot = cargs
             ch = ("D", i, s, slot)
         applied[ch] = applied.get(ch, 0) + 1
+        if ch not in order:
+            rec.oblig("the applied event is a channel of the specification", "violated", "event %s is no channel of the neighbour relation / network" % (ch,), 0, desc)
+            rec.violation("gillespie-extra-channel", "a Gillespie step applied event %s, which is not a channel of the specification (e.g. diffusion from a cell to itself) (%s)" % (ch, desc),
+                          {"structure": desc, "channel": list(ch)}, replayed=audit_finds(system, "gillespie", "noop-event") or audit_finds(system, "gillespie", "illegal-event"))
+            continue
         # interval
         k = order.index(ch)
         lo = sum((I.toreal(A[c]) for c in order[:k]), z3.RealVal(0))
